@@ -348,6 +348,8 @@ def run_direction_case(c, d):
         dss = datasets(c, frames, d)        # fresh dataset objects (brew consumed the spectra table)
     try:
         outs = run_confidence(dss, frames, scores, list(descs), d, "conf")
+    except SystemExit:      # triqler's qvality exits when the retained PSMs hold no target (or no decoy): PEP matter (C06)
+        return "skip", []
     except Exception as e:  # noqa
         return "ran", [("assign-confidence-raises-" + type(e).__name__, "%s: %s" % (type(e).__name__, str(e)[:200]))]
     bad, informative = [], False
